@@ -663,51 +663,6 @@ theorem getD_map_field (l : List Rec) (j i : Nat) :
     (l.map (·.field j)).getD i [] = ((l[i]?).map (·.field j)).getD [] := by
   simp only [List.getD_eq_getElem?_getD, List.getElem?_map]
 
-/-- the columns `get_buffer` assembles: replaced columns as given, the others fetched as text -/
-def columns (nF : Nat) (repl : List (Nat × List Bytes)) (e : Ext) : List (List Bytes) :=
-  (List.range nF).map (fun j =>
-    match repl.find? (·.1 == j) with
-    | some (_, col) => col
-    | none => e.fieldText j)
-
-/-- **C04.replace_fields** — a modified write of a well-formed extractor consists, record by record,
-of the replaced columns' new text and, for every other field of the entry type, the original text
-of that field in the denoted record, joined by the separator and terminated by a newline. -/
-theorem replace_fields (e : Ext) (h : WF e) (sep nF : Nat) (repl : List (Nat × List Bytes)) :
-    joinDelimited sep e.len (columns nF repl e) =
-      ((specFields nF repl e.abs).map (fun row => intercalate [sep] row ++ [10])).flatten := by
-  have hl : e.abs.length = e.len := by
-    unfold Ext.abs Ext.len; rw [List.length_map, rows_length e h.1]
-  unfold joinDelimited specFields transposeN columns
-  rw [hl]
-  simp only [List.map_map]
-  congr 1
-  apply List.map_congr_left
-  intro i _
-  simp only [Function.comp]
-  congr 2
-  apply List.map_congr_left
-  intro j _
-  simp only [Function.comp]
-  cases hrep : repl.find? (·.1 == j) with
-  | some pc => rfl
-  | none =>
-    simp only
-    rw [field_text e h j, getD_map_field]
-
-/-- **C04.program_replace** — the same after any program: unreplaced fields carry the original
-text of the selected source records. -/
-theorem program_replace (tabs : List Ext) (ht : ∀ t ∈ tabs, Inv t) (p : Prog) (sep nF : Nat)
-    (repl : List (Nat × List Bytes)) :
-    (p.evalExt tabs).map (fun e => joinDelimited sep e.len (columns nF repl e)) =
-      (p.evalSpec (tabs.map Ext.abs)).map
-        (fun recs => ((specFields nF repl recs).map (fun row => intercalate [sep] row ++ [10])).flatten) := by
-  obtain ⟨h1, h2⟩ := program_abs tabs ht p
-  rw [← h2]
-  cases hp : p.evalExt tabs with
-  | none => rfl
-  | some e => simp [replace_fields e (h1 e hp).1]
-
 /-! ### BAM: the same extractor without field tables -/
 
 /-- **C04.bam_records** — `BamBufferExtractor.__getitem__/_make_contigous/data` is the same machine
